@@ -40,6 +40,19 @@ pub fn compare(s: &str, ext: bool) -> Option<String> {
             (Ok(i), Err(e)) => return Some(format!("parser accepts as {} but the grammar does not derive the input ({e})", i)),
             (Err(e), Ok(r)) => return Some(format!("parser rejects ({e}) but the grammar derives {}", r.render())),
         }
+        // the parse-and-preprocess wrappers (the parsers behind the model-checking entry points) accept only what
+        // their parser accepts, and everything it accepts that is well-scoped over the network's propositions
+        {
+            use biodivine_hctl_model_checker::preprocessing::parser::{parse_and_minimize_extended_formula, parse_and_minimize_hctl_formula};
+            thread_local! { static WCTX: biodivine_lib_param_bn::symbolic_async_graph::SymbolicContext = biodivine_lib_param_bn::symbolic_async_graph::SymbolicContext::new(&biodivine_lib_param_bn::BooleanNetwork::try_from("a -| a\n_ -> a\n$_: true\n").unwrap()).unwrap(); }
+            let w = WCTX.with(|c| if ext { parse_and_minimize_extended_formula(c, s) } else { parse_and_minimize_hctl_formula(c, s) });
+            let name = if ext { "parse_and_minimize_extended_formula" } else { "parse_and_minimize_hctl_formula" };
+            match (&w, &rp_) {
+                (Ok(t), Err(e)) => return Some(format!("{name} accepts as {t} but the grammar of its parser does not derive the input ({e})")),
+                (Err(e), Ok(r)) if r.scope_ok(&mut vec![], &["a".to_string(), "_".to_string()]) => return Some(format!("{name} rejects ({e}) a derivable, well-scoped formula over the network's propositions: {}", r.render())),
+                _ => {}
+            }
+        }
         // the extended parser agrees with the plain one on plain formulae
         if !ext {
             if let Ok(p) = &ip {
@@ -270,7 +283,7 @@ pub fn run(tier: &str) -> Result<Report, String> {
     rep.sample(json!({"char_string": "3{x}in", "reference": format!("{:?}", rp::parse_str("3{x}in", true).map(|t| t.render()))}));
     rep.sample(json!({"special": special[special.len() / 2]}));
     rep.rule = format!(
-        "(a) every sequence of 1..{t} tokens over the 27-token alphabet {TOKENS:?} joined by single spaces, (b) every string of 1..{k} symbols over {CHARS:?}, (b2) every sequence of up to 5 (6) space-separated and of up to 5 glued hybrid-header pieces (3{{x}}, !{{x}}, \\forall {{x}}, @{{x}}, in, i, inx, junk, n, %d%, d, :, a, AX {{x}}, 1, _), (c) {} deterministic long/odd inputs (operator chains of depth 40, all pairs of binary operators, identifier shapes, unicode whitespace at every boundary); each through the plain and the extended tokenizer+parser and through the independent reference tokenizer + recursive-descent parser: accept/reject, token lists and trees must agree, and the extended parser must equal the plain one on plain formulae; distinct_nontrivial = number of distinct trees the grammar derives in the explored spaces",
+        "(a) every sequence of 1..{t} tokens over the 27-token alphabet {TOKENS:?} joined by single spaces, (b) every string of 1..{k} symbols over {CHARS:?}, (b2) every sequence of up to 5 (6) space-separated and of up to 5 glued hybrid-header pieces (3{{x}}, !{{x}}, \\forall {{x}}, @{{x}}, in, i, inx, junk, n, %d%, d, :, a, AX {{x}}, 1, _), (c) {} deterministic long/odd inputs (operator chains of depth 40, all pairs of binary operators, identifier shapes, unicode whitespace at every boundary); each through the plain and the extended tokenizer+parser and through the independent reference tokenizer + recursive-descent parser: accept/reject, token lists and trees must agree, the parse-and-preprocess wrappers parse_and_minimize_(hctl|extended)_formula (context of a network with the propositions a and _) accept nothing their parser rejects and everything derivable that is well-scoped over these propositions, and the extended parser must equal the plain one on plain formulae; distinct_nontrivial = number of distinct trees the grammar derives in the explored spaces",
         special.len()
     );
     rep.assumptions.push("the reference grammar is the one written in the README / property C05 (H* prefix, <=> < => < | < ^ < & < binary temporal < unary, all binary operators right-associative); lexical conventions (maximal-munch identifiers, E?/A? operator names, '3'/'V' alone are quantifiers, Unicode alphanumerics/whitespace) are taken from the documentation of the tokenizer".into());
